@@ -26,6 +26,8 @@ type Clause struct {
 	GoName string // generated function name
 	Loop   int
 	Line   int
+	Site       string // atcall: substring of the call's source text
+	With       string // atcall: extra parameter declarations "callee_x T, ..."
 	CutComment string
 	CutOrd     int
 	Havoc      []string
@@ -66,6 +68,7 @@ type Contract struct {
 	Loops       map[int]*LoopSpec
 	Cuts        []*Clause
 	Running     []*Clause
+	AtCalls     []*Clause
 	ParamNames  []string
 	ParamTypes  []string
 	ResultNames []string
@@ -106,7 +109,7 @@ type PkgSpec struct {
 }
 
 var clauseKW = map[string]bool{"requires": true, "ensures": true, "modifies": true, "loop": true, "allocates": true,
-	"params": true, "vars": true, "pure": true, "trusted": true, "bounded": true, "assumes": true, "maypanic": true, "callers": true, "coupling": true, "model": true, "cut": true, "running": true}
+	"params": true, "vars": true, "pure": true, "trusted": true, "bounded": true, "assumes": true, "maypanic": true, "callers": true, "coupling": true, "model": true, "cut": true, "running": true, "atcall": true}
 
 var headRe = regexp.MustCompile(`^(func|type|lemma|canary|refine)\s+(.*)$`)
 var tagsRe = regexp.MustCompile(`\[(C[0-9]+(?:\s*,\s*C[0-9]+)*)\]`)
@@ -315,6 +318,28 @@ func ParseContractFile(path, pkgPath string) (*PkgSpec, error) {
 				}
 			}
 			cur.Cuts = append(cur.Cuts, c)
+			curClause = c
+		case "atcall":
+			// atcall <site substring> with (callee_p T, ...) requires[label] EXPR
+			rest := strings.TrimSpace(strings.TrimPrefix(text, "atcall"))
+			wi := strings.Index(rest, " with (")
+			ri := strings.Index(rest, ") requires")
+			if wi < 0 || ri < wi {
+				return nil, fmt.Errorf("%s:%d: atcall <site> with (callee_p T, ...) requires[label] EXPR", path, ln+1)
+			}
+			c := &Clause{Kind: "atcall", Site: strings.TrimSpace(rest[:wi]), With: rest[wi+len(" with ("):ri], Line: ln + 1, Tags: cur.Tags}
+			tail := strings.TrimSpace(rest[ri+len(") requires"):])
+			c.Label = fmt.Sprintf("atcall%d", len(cur.AtCalls))
+			if strings.HasPrefix(tail, "[") {
+				j := strings.Index(tail, "]")
+				c.Label, tail = tail[1:j], strings.TrimSpace(tail[j+1:])
+				if k := strings.Index(c.Label, ";"); k >= 0 {
+					_, c.Tags = parseTags("[" + c.Label[k+1:] + "]")
+					c.Label = c.Label[:k]
+				}
+			}
+			c.Raw = tail
+			cur.AtCalls = append(cur.AtCalls, c)
 			curClause = c
 		case "running":
 			rest := strings.TrimSpace(strings.TrimPrefix(text, "running"))
@@ -971,6 +996,10 @@ func (e *Engine) GenerateOverlay(ps *PkgSpec, pkg *types.Package, fnByKey map[st
 		}
 		for _, c := range con.Running {
 			emit(c, con, us.params, "bool")
+		}
+		for _, c := range con.AtCalls {
+			ps := append(append([]string{}, loopParams...), splitTop(c.With, ",")...)
+			emit(c, con, ps, "bool")
 		}
 		for _, k := range lks {
 			ls := con.Loops[k]
